@@ -407,3 +407,119 @@ mutant("c13-declared-oversize-still-read", "C13", "C13-D1", "engine.io/transport
 	}""",
        """		r.Close = true
 	}""")
+
+# ---------------------------------------------------------------- C05
+mutant("c05-lookup-default-nsp", "C05", "C05-D1", "server_conn.go",
+       "		socket, ok := c.sockets.getByNsp(header.Namespace)", "		socket, ok := c.sockets.getByNsp(\"/\")")
+mutant("c05-no-normalise", "C05", "C05-D1", "server_conn.go",
+       """		if header.Namespace == "" {
+			header.Namespace = "/"
+		}
+		socket, ok :=""",
+       """		socket, ok :=""")
+mutant("c05-emit-root-namespace", "C05", "C05-D1", "server_socket.go",
+       """	header := parser.PacketHeader{
+		Type:      parser.PacketTypeAck,
+		Namespace: s.nsp.Name(),""",
+       """	header := parser.PacketHeader{
+		Type:      parser.PacketTypeAck,
+		Namespace: "/",""")
+mutant("c05-no-invalid-state-close", "C05", "C05-D3", "server_conn.go",
+       """			c.debug.Log("Invalid state", "packet type", header.Type)
+			c.close()""",
+       """			c.debug.Log("Invalid state", "packet type", header.Type)""")
+mutant("c05-dispatch-second-connect", "C05", "C05-D3", "server_conn.go",
+       "} else if ok && header.Type != parser.PacketTypeConnect && header.Type != parser.PacketTypeConnectError {",
+       "} else if ok && header.Type != parser.PacketTypeConnectError {")
+mutant("c05-shared-rooms-map", "C05", "C05-D2", "adapter/adapter_memory.go",
+       """	return func(socketStore SocketStore, parserCreator parser.Creator) Adapter {
+		return &inMemoryAdapter{
+			rooms:   make(map[Room]mapset.Set[SocketID]),""",
+       """	rooms := make(map[Room]mapset.Set[SocketID])
+	return func(socketStore SocketStore, parserCreator parser.Creator) Adapter {
+		return &inMemoryAdapter{
+			rooms:   rooms,""")
+mutant("c05-attach-before-error-test", "C05", "C05-D4", "server_conn.go",
+       """	socket, err := nsp.add(c, auth)
+	if err != nil {""",
+       """	socket, err := nsp.add(c, auth)
+	if socket != nil {
+		c.sockets.set(socket)
+	}
+	if err != nil {""")
+mutant("c05-connect-before-routable", "C05", "C05-D5", "namespace.go",
+       """	socket.conn.sockets.set(socket)
+	socket.conn.nsps.set(n)
+""", "")
+mutant("c05-disconnect-closes-conn", "C05", "C05-D6", "server_socket.go",
+       """	s.debug.Log("Got disconnect packet")
+	s.onClose(ReasonClientNamespaceDisconnect)""",
+       """	s.debug.Log("Got disconnect packet")
+	s.onClose(ReasonClientNamespaceDisconnect)
+	s.conn.close()""")
+mutant("c05-client-connected-on-open", "C05", "C05-D4", "client_socket.go",
+       """			s.state = clientSocketConnStateConnectPending
+			s.onOpen()
+		}
+		errorFunc""",
+       """			s.state = clientSocketConnStateConnected
+			s.onOpen()
+		}
+		errorFunc""")
+mutant("c05-shared-socket-store", "C05", "C05-D2", "namespace.go",
+       "	nsp.adapter = adapterCreator(newAdapterSocketStore(socketStore), parserCreator)",
+       "	nsp.adapter = adapterCreator(newAdapterSocketStore(server.Of(\"/\").sockets), parserCreator)")
+
+# ---------------------------------------------------------------- C06
+mutant("c06-fanout-outside-once", "C06", "C06-D1", "server_socket.go",
+       """	s.debug.Log("Going to close the socket if it is not already closed. Reason", reason)
+""",
+       """	s.debug.Log("Going to close the socket if it is not already closed. Reason", reason)
+	if reason == ReasonServerShuttingDown {
+		s.disconnectHandlers.forEach(func(handler *ServerSocketDisconnectFunc) { (*handler)(reason) }, true)
+	}
+""")
+mutant("c06-skip-nsp-remove", "C06", "C06-D2", "server_socket.go",
+       "		s.nsp.remove(s)\n		s.conn.remove(s)\n", "		s.conn.remove(s)\n")
+mutant("c06-skip-cleanup-on-forced", "C06", "C06-D2", "server_socket.go",
+       "		s.leaveAll()\n\n		s.nsp.remove(s)", "		if reason != ReasonForcedServerClose {\n			s.leaveAll()\n		}\n\n		s.nsp.remove(s)")
+mutant("c06-eio-close-keeps-session", "C06", "C06-D2", "engine.io/server_socket.go",
+       "		close(s.closeChan)\n		defer s.onClose(s.id)\n", "		close(s.closeChan)\n")
+mutant("c06-eio-onclose-only-forced", "C06", "C06-D2", "engine.io/server_socket.go",
+       "		defer s.onClose(s.id)\n", "		if reason == ReasonForcedClose {\n			defer s.onClose(s.id)\n		}\n")
+mutant("c06-wrong-reason-ping", "C06", "C06-D5", "engine.io/server_socket.go",
+       "			s.close(ReasonPingTimeout, nil)", "			s.close(ReasonTransportClose, nil)")
+mutant("c06-wrong-reason-transport-error", "C06", "C06-D5", "engine.io/server_socket.go",
+       "			s.close(ReasonTransportError, err)", "			s.close(ReasonTransportClose, err)")
+mutant("c06-conn-close-other-reason", "C06", "C06-D3", "server_conn.go",
+       "			socket.onClose(reason)\n", "			socket.onClose(ReasonTransportClose)\n")
+mutant("c06-newsocket-no-recheck", "C06", "C06-D4", "engine.io/server.go",
+       """	if s.IsClosed() {
+		s.debug.Log("Server was closed during the handshake. Closing the socket")
+		socket.Close()
+		return nil
+	}
+	return socket""",
+       """	return socket""")
+mutant("c06-sweep-before-flag", "C06", "C06-D4", "engine.io/server.go",
+       """	// Prevent new clients from connecting.
+	s.closeOnce.Do(func() {
+		close(s.closed)
+	})
+
+	// Close all sockets that are currently connected.
+	s.store.closeAll()""",
+       """	s.store.closeAll()
+	s.closeOnce.Do(func() {
+		close(s.closed)
+	})""")
+mutant("c06-transport-onclose-outside-once", "C06", "C06-D1", "engine.io/transport/polling/server.go",
+       """func (t *ServerTransport) Close() {
+	t.close(nil)
+}""",
+       """func (t *ServerTransport) Close() {
+	t.close(nil)
+	t.callbacks.OnClose(t.Name(), nil)
+}""")
+mutant("c06-store-delete-not-wired", "C06", "C06-D2", "engine.io/server.go",
+       "s.pingInterval, s.pingTimeout, s.debug, s.store.delete)", "s.pingInterval, s.pingTimeout, s.debug, nil)")
